@@ -89,6 +89,12 @@ class Prop(BaseProp):
                            "generic", "plain", "block", "cpa", "function", "cpa", "nested_defs", "nested_defs", "twin_defs"], p_reuse_params=0.35, p_clone=0.08,
                     clone_toggle_doc=True, virtual_members=True, p_doc_impl=0.2, p_between=0.3)
         mod = b.module()
+        if mi % 30 == 4:
+            # scale: a module of more than 64 KiB
+            mod.items = mod.items + b.items(0, n=mrng.randint(200, 320))
+        if mi % 6 == 2:
+            # scale: undocumented definitions nested tens of levels deep inside a documented one that parses keyword arguments
+            mod.items.insert(mrng.randint(0, len(mod.items)), b.deep_definitions(mrng.choice([20, 34, 45])))
         text = render(mod, Layout(mrng, comments=0.05, wild=0.1, case="random"))
         # non-flag settings are the same under defaults and under X; half of the modules use parameter strip patterns
         other = {}
